@@ -40,6 +40,20 @@ def run(tier, seed):
                 exp = [[sum(zb[n - i] * zb[n - j] for n in range(ml, len(zb))) for i in range(ml + 1)] for j in range(ml + 1)]
                 return [list(r) for r in M] == exp, "lag_matrix(%r, %d) = %r, defining sums %r" % ([str(v) for v in zb], ml, M, exp)
             R.guard("lag_matrix-is-the-plain-table", {"block": "with zeros", "len": len(zb), "max_lag": ml}, lmz)
+        if L == 5:
+            for n_ in (17, 33, 40):     # scale: long blocks (every lag)
+                lb = [F((7 * i * i + 3 * i) % 11 - 5, 1 + i % 3) for i in range(n_)]
+                def acl():
+                    r = acorr(lb)
+                    exp = [sum(lb[n] * lb[n + t] for n in range(len(lb) - t)) for t in range(len(lb))]
+                    bad = [t for t in range(len(lb)) if r[t] != exp[t]]
+                    return not bad, "acorr of a %d-sample block: lags %r are not their defining sums" % (n_, bad[:5])
+                R.guard("acorr-is-the-plain-sum", {"block": "long", "len": n_}, acl)
+                def lml():
+                    M = lag_matrix(lb, 3)
+                    exp = [[sum(lb[n - i] * lb[n - j] for n in range(3, len(lb))) for i in range(4)] for j in range(4)]
+                    return [list(r) for r in M] == exp, "lag_matrix of a %d-sample block" % n_
+                R.guard("lag_matrix-is-the-plain-table", {"block": "long", "len": n_}, lml)
         R.guard("lag_matrix-order>=len-refused", {"L": L}, lambda: ((lambda: (_ for _ in ()).throw(Fail()))() if False else _raises(lambda: lag_matrix(blk, L), "ValueError"), "lag_matrix(blk, len(blk)) must raise ValueError"))
         def tp():
             T = toeplitz(blk)
